@@ -250,15 +250,41 @@ impl<K: KeyT, V: ValT> MapWorld<K, V> {
                 }
             }
             13 => {
-                // par_extend from another map's into_par_iter (through the bridge) = sequential extend
-                let src_pairs: Vec<(u32, u32)> = self.slots[ti].model.e.iter().map(|e| (e.kid, e.v ^ 1)).chain(std::iter::once((op.b as u32 % K::UNIVERSE, 7))).collect();
-                let mut tmp: SMap<K, V> = HashMap::with_hasher_in(SimBuildHasher::new(self.slots[ti].plan.clone()), SimAlloc);
-                for &(k, v) in &src_pairs {
-                    tmp.insert(K::make(k), V::make(v));
+                // par_extend = sequential extend, also for sources with repeated keys (last value wins):
+                // even decisions use another map's into_par_iter (through the owned bridge), odd ones a Vec
+                // with duplicates (rayon's indexed bridge on the pinned pool splits it into chunks)
+                let mut pairs: Vec<(u32, u32)> = self.slots[ti].model.e.iter().map(|e| (e.kid, e.v ^ 1)).chain(std::iter::once((op.b as u32 % K::UNIVERSE, 7))).collect();
+                let from_vec = op.b % 2 == 1;
+                if from_vec {
+                    let dups: Vec<(u32, u32)> = pairs.iter().enumerate().map(|(i, p)| (p.0, p.1 ^ (0x100 + i as u32))).collect();
+                    pairs.extend(dups);
+                    for (i, d) in op.v.iter().enumerate() {
+                        if pairs.len() > 1 {
+                            let j = (*d as usize) % pairs.len();
+                            let k = i % pairs.len();
+                            pairs.swap(j, k);
+                        }
+                    }
                 }
-                let expect_src: Vec<(u32, u32)> = tmp.iter().map(|(k, v)| (k.id(), v.val())).collect();
+                let mut expect_src: Vec<(u32, u32)> = Vec::new();
+                for &(k, v) in &pairs {
+                    match expect_src.iter_mut().find(|w| w.0 == k) {
+                        Some(w) => w.1 = v,
+                        None => expect_src.push((k, v)),
+                    }
+                }
+                let tplan = self.slots[ti].plan.clone();
                 let m = self.slots[si].map.as_mut().unwrap();
-                let out = self.ctx.call(op, || m.par_extend(tmp.into_par_iter()));
+                let out = if from_vec {
+                    let items: Vec<(K, V)> = pairs.iter().map(|&(k, v)| (K::make(k), V::make(v))).collect();
+                    self.ctx.call(op, || m.par_extend(items.into_par_iter()))
+                } else {
+                    let mut tmp: SMap<K, V> = HashMap::with_hasher_in(SimBuildHasher::new(tplan), SimAlloc);
+                    for &(k, v) in &pairs {
+                        tmp.insert(K::make(k), V::make(v));
+                    }
+                    self.ctx.call(op, || m.par_extend(tmp.into_par_iter()))
+                };
                 finish_schedule();
                 if !matches!(out, Out::Ok(())) {
                     vio!(self, class, "par_extend panicked");
@@ -273,7 +299,7 @@ impl<K: KeyT, V: ValT> MapWorld<K, V> {
                 let act = self.actual(si);
                 let got = sorted(act.iter().map(|x| (x.0.kid, x.0.v)).collect::<Vec<_>>());
                 if got != sorted(want) {
-                    vio!(self, class, "par_extend result differs from a sequential extend ({} entries)", got.len());
+                    vio!(self, class, "par_extend result differs from a sequential extend of the same source ({} entries, source from a Vec with repeated keys: {from_vec})", got.len());
                 }
                 self.slots[si].model.e = act.into_iter().map(|x| x.0).collect();
             }
